@@ -134,24 +134,27 @@ async def replay_export(exp: Export, corpus: Corpus, *, stride: int = 1) -> dict
                     ok = False
                     break
                 steps.append(await probe.exchange(pdu))
-            if ok and st[2] and not (probe.last_seed() or (0, b""))[1]:
+            if ok and st[2] % 2 == 1 and not (probe.last_seed() or (0, b""))[1]:
                 for _ in range(8):
                     steps.append(await probe.exchange(bytes([SID_SA, st[2]])))
                     if (probe.last_seed() or (0, b""))[1]:
                         break
             if not ok or code_state() != st:
-                if ok:
-                    disagreements.append({"B": sorted(B), "state": st, "kind": "path", "path": paths[st],
-                                          "code_state": code_state(), "trace": None, "step": None})
-                else:
-                    stats["skipped_no_seed"] += 1
+                ptid = len(corpus.traces) if steps else None
                 if steps:
                     corpus.add(m=mi, B=B, mode="E", steps=steps, meta={"origin": "spec->code path", "mc": True})
+                if ok:
+                    disagreements.append({"B": sorted(B), "state": st, "kind": "path", "path": paths[st],
+                                          "code_state": code_state(), "trace": ptid, "step": None})
+                else:
+                    stats["skipped_no_seed"] += 1
                 continue
             stats["states"] += 1
             if steps:
                 corpus.add(m=mi, B=B, mode="E", steps=steps, meta={"origin": "spec->code path", "mc": True})
             snap = (server.state.session, server.state.security_access_level, server.state.last_sa_response)
+            group: list[dict[str, Any]] = []
+            gtid = len(corpus.traces)
             for i, outs in sorted(by_req.items()):
                 server.state.session, server.state.security_access_level, server.state.last_sa_response = snap
                 pdu = pdu_of(i)
@@ -163,10 +166,11 @@ async def replay_export(exp: Export, corpus: Corpus, *, stride: int = 1) -> dict
                 vis = 0 if step["vk"] == "none" else (1 if step["vn"] == 3 and step["vb"][0] == 0x7F else 2)
                 got = (k, x, vis) + code_state()
                 stats["replayed"] += 1
-                tid = len(corpus.traces)
-                corpus.add(m=mi, B=B, mode="E", steps=[step], init=(st[0], st[1]),
-                           meta={"origin": "spec->code", "mc": True, "state": st, "req": i})
+                group.append(step)
                 if got not in outs:
                     disagreements.append({"B": sorted(B), "state": st, "kind": "step", "req": pdu.hex(),
-                                          "design": sorted(outs), "code": got, "trace": tid, "step": 1})
+                                          "design": sorted(outs), "code": got, "trace": gtid, "step": len(group)})
+            if group:
+                corpus.add(m=mi, B=B, mode="E", steps=group, init=(st[0], st[1]), indep=True,
+                           meta={"origin": "spec->code", "mc": True, "state": st})
     return {"stats": stats, "disagreements": disagreements}
